@@ -47,3 +47,46 @@ func TestLncSmoke(t *testing.T) {
 		fmt.Println(string(b))
 	}
 }
+
+func TestLncSmokeWebsocket(t *testing.T) {
+	s, err := lncrun.New(lncrun.Options{Patience: 30 * time.Second, Websocket: true})
+	if err != nil {
+		t.Fatal(err)
+	}
+	s.Serve()
+	c := s.Dial("c", 1)
+	if c == nil || c.Sec == nil {
+		for _, e := range s.Stat.Events() {
+			b, _ := json.Marshal(e)
+			fmt.Println(string(b))
+		}
+		t.Fatalf("dial failed")
+	}
+	sc := s.Accepted()
+	if sc == nil || sc.Sec == nil {
+		t.Fatalf("accept failed")
+	}
+	for _, n := range []int{1, 100, 40000, 65535} {
+		if err := c.Write(n); err != nil {
+			t.Fatal(err)
+		}
+		if err := sc.Write(n); err != nil {
+			t.Fatal(err)
+		}
+	}
+	fmt.Println("read ok", sc.AwaitRead(c.Written(), 20*time.Second), c.AwaitRead(sc.Written(), 20*time.Second))
+	c.Close("script")
+	fmt.Println("server down", sc.AwaitDown(20*time.Second))
+	c2 := s.Dial("c", 2)
+	sc2 := s.Accepted()
+	fmt.Println("second", c2 != nil && c2.Sec != nil, sc2 != nil && sc2.Sec != nil)
+	s.Shutdown()
+	n := 0
+	for _, e := range s.Stat.Events() {
+		if e["ev"] == "cstat" && n < 12 {
+			b, _ := json.Marshal(e)
+			fmt.Println(string(b))
+			n++
+		}
+	}
+}
